@@ -12,12 +12,28 @@ int main(void)
 	while (scanf(" %c %lld", &which, &v) == 2) {
 		const char *s;
 
+		if (which == 'S' || which == 'M') {
+			/* sweep: every 32-bit value >= v (the number of enumerators) must give NULL; prints the first few that do not.
+			 * (built without sanitizers for this use: an out-of-table read shows as a non-NULL answer or a crash) */
+			unsigned long long bad = 0;
+
+			for (unsigned long long x = (unsigned long long)v; x <= 0xffffffffULL; x++) {
+				s = which == 'S' ? rtr_state_to_str((enum rtr_socket_state)(unsigned int)x) :
+						   rtr_mgr_status_to_str((enum rtr_mgr_status)(unsigned int)x);
+				if (s && bad++ < 5)
+					printf("%c %lld nonnull\n", which == 'S' ? 's' : 'm', (long long)(int)(unsigned int)x);
+			}
+			printf("%c sweep %llu\n", which, bad);
+			fflush(stdout);
+			continue;
+		}
+
 		fflush(stdout);
 		if (which == 's')
 			s = rtr_state_to_str((enum rtr_socket_state)(int)v);
 		else
 			s = rtr_mgr_status_to_str((enum rtr_mgr_status)(int)v);
-		printf("%c %lld %s\n", which, v, s ? s : "NULL");
+		printf("%c %lld %s\n", which, v, s ? (*s ? s : "<empty-string>") : "NULL");
 		fflush(stdout);
 	}
 	return 0;
